@@ -17,6 +17,8 @@ from props.ctl import Ctl
 from props.c01 import SHAPES
 from txtorcon.torcontrolprotocol import TorDisconnectError, TorProtocolError
 
+from props import e3
+
 PROPERTY = 'C03'
 
 SYMS_Q = [(k, s) for k in 'PK' for s in ('M1', 'D', 'EM')]
@@ -55,6 +57,10 @@ def scripts(tier):
 
 
 def tasks(tier, seed):
+    return _tasks(tier, seed) + e3.prepare(tier)
+
+
+def _tasks(tier, seed):
     out = []
     for sc in scripts(tier):
         for clean in (True, False):
@@ -185,6 +191,8 @@ def run_one(script, clean, offset, nwatch, post, reentrant=''):
 
 
 def run_task(param, acc):
+    if param[0] in ('e3', 'e3-tlc-failed'):
+        return e3.run(param, acc)
     script, clean = param
     maxpost = 3 if acc.tier == 'quick' else 4
     if script[0] == 'auth':
@@ -218,6 +226,8 @@ def run_task(param, acc):
 
 
 def replay(p):
+    if p.get('e3'):
+        return e3.replay(p)
     sc = p['script']
     body = sc[1]
     if sc[0] == 'cmds':
